@@ -113,6 +113,7 @@ def run(ck, F):
     C10.run(C04._Sub(ck, "R6", lambda key: True, only_rules=("R1", "R2", "R3")), F)
     rule_self_alias(ck, F, X)
     rule_member_separators(ck, F, X)
+    rule_doc_comments_document(ck, F, X)
     rule_skeletons(ck, F)
 
 
@@ -291,10 +292,17 @@ def rule_spelling(ck, F, X):
 
 # ---- R6 -------------------------------------------------------------------------------------------
 
+_KEY_CE = [None]
+
+
 def _name_key(nf):
     """Stable short descriptor of a name normal form: `{}` + literal text for formats, else the last field of the root."""
     if nf[0] == "format":
         return "".join(p[1] if p[0] == "lit" else "{}" for p in nf[1])
+    if _KEY_CE[0] is not None:
+        nf = _KEY_CE[0].expand(nf)      # the same name whether or not the naming helper was already opened where it was found
+        if nf[0] == "format":
+            return "".join(p[1] if p[0] == "lit" else "{}" for p in nf[1])
     ch, root = og.sanitiser_chain(nf)
     r = og.nf_str(root)
     r = r.rsplit(".", 1)[-1] if "." in r else r
@@ -323,6 +331,7 @@ def _tokens(nf, star_iters):
 
 
 def rule_injectivity(ck, F, X):
+    _KEY_CE[0] = T._ce(X)
     stream = list(T.inline(X, T.ROOT))
     scopes = []  # stack of (kind, name_nf, ctx) for `pub mod {..} {` and `impl {..} {`
     n = 0
@@ -365,6 +374,132 @@ def rule_injectivity(ck, F, X):
         else:
             ck.ok("R6", f"{kind}:{_name_key(name)}", ev.site, f"name depends on all {len(star_iters)} enclosing loop element(s)", fn=fnshort)
     ck.floor("R6", "definition templates under loops", n, 3)
+
+
+ITEM_START = re.compile(r"^\s*(///|//!|#\[|#!\[|pub[ (]|impl[ <]|mod |struct |type |fn |async |unsafe |enum |use |const |static |trait |extern |macro_rules!)")
+
+
+def _decisions(ctx):
+    return [og.decision(c[1], c[2]) for c in ctx if c[0] == "alt"]     # (markers like ("nostar", ..) carry no decision)
+
+
+def _variant_of(c):
+    """(scrutinee, constructor) of a condition `x is Variant(..)` taken on the true branch"""
+    if c[0] == "alt" and c[2] is True and isinstance(c[1], tuple) and c[1][0] == "islet":
+        head = str(c[1][1]).split("(")[0].split("{")[0].strip().rsplit("::", 1)[-1]
+        if head[:1].isupper():
+            return (c[1][2], head)
+    return None
+
+
+def _excluded_by(dctx, ectx):
+    """can an event with context ectx not happen in the same pass through the code as one with context dctx? (one decision taken
+    both ways, or one value matched against two different variants)"""
+    dd = dict(_decisions(dctx))
+    for k_, v_ in _decisions(ectx):
+        if k_ in dd and dd[k_] != v_:
+            return True
+    dv = dict(x for x in (_variant_of(c) for c in dctx if c[0] == "alt") if x)
+    for c in ectx:
+        ve = _variant_of(c)
+        if ve and ve[0] in dv and dv[ve[0]] != ve[1]:
+            return True
+    return False
+
+
+def rule_doc_comments_document(ck, F, X):
+    """A `///` line documents the item that follows it; rustc rejects a doc comment that is followed by a closing brace or by the
+    end of the file ("expected item after doc comment"). Decided on the output grammar: for every template that writes a `///`
+    line, every line that can come next — in the same pass, in the next round of an enclosing loop, or after that loop — must begin
+    an item (or be another `///` / attribute line), until a line is reached that is always written."""
+    try:
+        stream = [e for e in T.inline(X, T.ROOT) if e.kind == "emit"]
+    except og.Unrecognised as u:
+        ck.undecided("R3", "doc-comment:grammar", "-", f"output grammar not extracted: {u}")
+        return
+    docs = [i for i, e in enumerate(stream) if re.match(r"^\s*///", e.skeleton())]
+    ck.count("R3:doc comment templates", len(docs))
+    for i in docs:
+        D = stream[i]
+        bad = None
+        seen_sites = set()
+
+        memo = {}
+
+        def scan(start, dctx, stop_at=None):
+            """follow the stream from `start` under what is known (dctx): {'definite'} when on every way on a line is reached that is
+            always written, 'end' among the results when the stretch can be left without one; lines that can come next and do not
+            begin an item are recorded. A line written only under further conditions can be absent: then (one of) those conditions
+            failed, and whatever depends on them is absent as well."""
+            nonlocal bad
+            key = (start, dctx, stop_at)
+            if key in memo:
+                return memo[key]
+            memo[key] = {"end"}
+            if len(memo) > 4000:
+                return {"end"}
+            j = start
+            out = None
+            while j < len(stream) and (stop_at is None or j < stop_at):
+                E = stream[j]
+                if _excluded_by(dctx, E.ctx) or any(c[0] == "star" and ("nostar", c[1]) in dctx for c in E.ctx):
+                    j += 1
+                    continue
+                extras = [c for c in E.ctx if c not in dctx]
+                if not ITEM_START.match(E.skeleton()) and bad is None:
+                    bad = E
+                if not extras:
+                    out = {"definite"}
+                    break
+                out = set()
+                for k_, x in enumerate(extras):
+                    neg = ("alt", x[1], not x[2]) if x[0] == "alt" else ("nostar", x[1])
+                    out |= scan(j + 1, dctx + tuple(extras[:k_]) + (neg,), stop_at)
+                break
+            if out is None:
+                out = {"end"}
+            memo[key] = out
+            return out
+
+        # the loops D sits in, innermost first: leaving one, the next round of it can come first
+        dctx = tuple(D.ctx)
+        pos = i + 1
+        result = None
+        while True:
+            stars_idx = [k for k, c in enumerate(dctx) if c[0] == "star"]
+            if not stars_idx:
+                result = "definite" if scan(pos, dctx) == {"definite"} else "end"
+                break
+            k = stars_idx[-1]
+            loop_ctx = dctx[:k + 1]
+            # the extent of this loop in the stream: the events around D that carry the loop's context prefix
+            lo = i
+            while lo > 0 and tuple(stream[lo - 1].ctx[:k + 1]) == loop_ctx:
+                lo -= 1
+            hi = i + 1
+            while hi < len(stream) and tuple(stream[hi].ctx[:k + 1]) == loop_ctx:
+                hi += 1
+            r = scan(pos, dctx, stop_at=hi)
+            if r == {"definite"}:
+                result = "definite"
+                break
+            # the next round of the loop starts at its first template; what was decided inside this round does not bind the next
+            scan(lo, loop_ctx, stop_at=hi)
+            # .. or the loop is over
+            dctx = dctx[:k]
+            pos = hi
+        if bad is None and result == "end":
+            ck.violation("R3", f"doc-comment:dangling:{D.fn.rsplit('::', 1)[-1]}", D.site,
+                         "a `///` line can be the last thing written: a doc comment at the end of the file documents nothing (rustc: expected item "
+                         "after doc comment)", fn="")
+        elif bad is not None:
+            ck.violation("R3", f"doc-comment:dangling:{D.fn.rsplit('::', 1)[-1]}", D.site,
+                         f"the `///` line written here can be followed directly by `{bad.skeleton().strip()[:50]}` (written at {bad.site}): when the "
+                         f"component it was written for produces no item, the comment documents nothing and the file does not compile "
+                         f"(rustc: expected item after doc comment)", fn="")
+        else:
+            ck.ok("R3", f"doc-comment:documents:{D.fn.rsplit('::', 1)[-1]}", D.site, "every line that can follow this `///` line begins an item", fn="")
+    ck.floor("R3", "doc comment templates", len(docs), 2)
 
 
 def rule_member_separators(ck, F, X):
